@@ -184,6 +184,24 @@ def run(eng, rep, tier):
                       site=site_of(prog, f or tn, (f or tn).node), nontrivial=False)
 
     # -------------------------------------------------------------- C05.3 printer / reader agreement
+    # an operator node prints itself inside its own parentheses: the reader gives union the lowest and star the highest
+    # priority, so a composite operand printed bare re-parses with another grouping ("(a|b).c" printed as "a|b.c")
+    for cls in ("Union", "Concatenation", "KleeneStar"):
+        f = prog.find_method(RO + "." + cls, "get_str_repr")
+        rets = [r for r in ast.walk(f.node) if isinstance(r, ast.Return) and r.value is not None]
+        shapes = [_string_parts(r.value) for r in rets]
+        understood = bool(shapes) and all(sh is not None for sh in shapes)
+        if not understood:
+            rep.error("R7", "C05.3", f.qname, "printer-parenthesises:" + cls,
+                      "the printed form of %s is not built by concatenation / format of string pieces; the rule cannot "
+                      "follow it" % cls, site=site_of(prog, f, f.node))
+            continue
+        ok = all(sh and isinstance(sh[0], str) and sh[0].startswith("(") and
+                 any(isinstance(x, str) and ")" in x for x in sh[1:]) for sh in shapes)
+        ob.decide("R7", "C05.3", f, "printer-parenthesises:" + cls, ok,
+                  "%s prints its operands inside its own pair of parentheses" % cls,
+                  "%s prints its operands without enclosing parentheses: as an operand of an operator of higher priority "
+                  "the text parses back with another grouping" % cls, None, site=site_of(prog, f, rets[0]))
     for cls, tab in (("Union", "UNION_SYMBOLS"), ("Concatenation", "CONCATENATION_SYMBOLS"),
                      ("KleeneStar", "KLEENE_STAR_SYMBOLS"), ("Epsilon", "EPSILON_SYMBOLS")):
         f = prog.find_method(RO + "." + cls, "get_str_repr")
@@ -258,6 +276,41 @@ def run(eng, rep, tier):
     rep.stats.update(eng.stats())
     rep.stats["justified_sites"] = justified
     rep.floor = 40
+
+
+def _string_parts(e):
+    """A string expression as a sequence of literal pieces (str) and dynamic pieces (None): `+` chains, f-strings,
+    "..." % x and "...".format(..) are understood; anything else gives None."""
+    if isinstance(e, ast.Constant) and isinstance(e.value, str):
+        return [e.value]
+    if isinstance(e, ast.BinOp) and isinstance(e.op, ast.Add):
+        a, b = _string_parts(e.left), _string_parts(e.right)
+        return None if a is None or b is None else a + b
+    if isinstance(e, ast.JoinedStr):
+        return [v.value if isinstance(v, ast.Constant) else None for v in e.values]
+    if isinstance(e, ast.BinOp) and isinstance(e.op, ast.Mod) and isinstance(e.left, ast.Constant) and \
+            isinstance(e.left.value, str):
+        import re as _re
+        out = []
+        for i, piece in enumerate(_re.split(r"%[sdr]", e.left.value)):
+            if i:
+                out.append(None)
+            if piece:
+                out.append(piece)
+        return out
+    if isinstance(e, ast.Call) and isinstance(e.func, ast.Attribute) and e.func.attr == "format" and \
+            isinstance(e.func.value, ast.Constant) and isinstance(e.func.value.value, str):
+        import re as _re
+        out = []
+        for i, piece in enumerate(_re.split(r"\{[^}]*\}", e.func.value.value)):
+            if i:
+                out.append(None)
+            if piece:
+                out.append(piece)
+        return out
+    if isinstance(e, (ast.Call, ast.Name, ast.Attribute, ast.Subscript)):
+        return [None]
+    return None
 
 
 def _doc(fn):
